@@ -92,7 +92,7 @@ CBD = "src/jaqalpaq/core/circuitbuilder.py"
 VARIANTS += [
     # reverting fix 7af6bac
     fire("c16-resolve-size-zero-step-unchecked",
-         [(RG, '        if step == 0:\n            raise JaqalError("Slice step cannot be zero.")\n        return len(range(start, stop, step))', "        return len(range(start, stop, step))")],
+         [(RG, '        if step == 0:\n            raise JaqalError("Slice step cannot be zero.")\n        try:', "        try:")],
          ("C16.12", "Register.resolve_size:range-step"), ("C16",)),
     # reverting fix 8a1e340
     fire("c16-build-map-size-of-any-entity",
@@ -108,7 +108,7 @@ VARIANTS += [
     silent("c16-as-integer-handler-explicit-complete",
            [(CBD, "    except Exception:\n        # The value wasn't even numeric.", "    except (TypeError, ValueError, OverflowError, JaqalError):\n        # The value wasn't even numeric.")], ("C16",)),
     silent("c16-range-step-guard-other-spelling",
-           [(RG, '        if step == 0:\n            raise JaqalError("Slice step cannot be zero.")\n        return len(range(start, stop, step))', '        if 0 == step:\n            raise JaqalError("Slice step cannot be zero.")\n        return len(range(start, stop, step))')], ("C16",)),
+           [(RG, '        if step == 0:\n            raise JaqalError("Slice step cannot be zero.")\n        try:', '        if 0 == step:\n            raise JaqalError("Slice step cannot be zero.")\n        try:')], ("C16",)),
 ]
 
 WKR = "src/jaqalpaq/core/algorithm/walkers.py"
@@ -158,7 +158,7 @@ VARIANTS += [
     # reverting fix dddb8af
     fire("c16-module-directory-not-checked-for-init",
          [(IMPF, '    if (try_directory / "__init__.py").is_file():\n', "    if try_directory.is_dir():\n")],
-         ("C16.20", "_jaqal_find_spec_relative:path-tested:spec_from_file_location"), ("C16",)),
+         ("C16.20", "path-tested:spec_from_file_location"), ("C16",)),
     fire("c16-import-path-not-checked",
          [(IMPF, '    if not Path(search_path).is_dir():\n        raise ImportError(f"Unable to find module {mod_name}")\n\n', "")],
          ("C16.20", "path-tested:listdir"), ("C16",)),
@@ -169,4 +169,24 @@ VARIANTS += [
     fire("c16-none-branch-use",
          [(ES16, "        if new_def is not None and isinstance(gate.gate_def, Macro):", "        if new_def is None and isinstance(gate.gate_def, Macro):")],
          ("C16.3", "SubcircuitExpander.visit_GateStatement:none-branch-use:new_def"), ("C16",)),
+]
+
+UN16 = "src/jaqalpaq/emulator/unitary.py"
+FL16 = "src/jaqalpaq/core/algorithm/fill_in_let.py"
+VARIANTS += [
+    # reverting the overflow fix
+    fire("c16-len-of-range-unprotected",
+         [(RG16, "        try:\n            return len(range(start, stop, step))\n        except OverflowError as exc:\n            raise JaqalError(\"Slice bounds are out of range.\") from exc\n", "        return len(range(start, stop, step))\n")],
+         ("C16.21", "Register.resolve_size:len-of-range"), ("C16",)),
+    fire("c16-len-of-range-in-init",
+         [(RG16, "                if indices and (\n", "                if len(indices) > 0 and (\n")],
+         ("*", "Register.__init__"), ("C16",)),
+    # reverting fix 23288a1
+    fire("c16-gate-table-lookup-unprotected",
+         [(UN16, "            try:\n                gatedef = gatedefs[gate.name]\n            except KeyError:\n                raise JaqalError(f\"No native gate {gate.name} to emulate\") from None\n", "            gatedef = gatedefs[gate.name]\n")],
+         ("C16.21", "gate-table-lookup"), ("C16",)),
+    # reverting fix 25182b6
+    fire("c16-probe-oserror-escapes",
+         [(IMPF, "    try:\n        return _jaqal_probe_spec_relative(mod_name, search_path)\n    except OSError as exc:\n        # E.g. a name too long for the file system: there is no such module\n        raise ImportError(f\"Unable to find module {mod_name}\") from exc\n", "    return _jaqal_probe_spec_relative(mod_name, search_path)\n")],
+         ("C16.21", "probe-oserror-converted"), ("C16",)),
 ]
